@@ -661,3 +661,65 @@ Proof.
     + apply Forall_app. split; [apply allDD_gf0|apply allnm_gf0]; assumption.
     + intros nx _. apply dd_res_exit. rewrite ET, !app_length. cbn [length]. lia.
 Qed.
+
+Lemma firstn_exact : forall (A Bx : list Z), firstn (length A) (A ++ Bx) = A.
+Proof. intros. rewrite firstn_app, firstn_all, Nat.sub_diag. cbn. apply app_nil_r. Qed.
+
+(* a scan that meets  name ".."  : collapse, then restart on the shorter text *)
+Lemma scan_cancel : forall k D N' n Y r, (k = 0 \/ k = 1) -> allDD D -> allnm (N' ++ [n]) ->
+  dd_res 0 (TX k ((D ++ N') ++ match Y with [] => [[]] | _ => Y end))
+           (length (TX k ((D ++ N') ++ match Y with [] => [[]] | _ => Y end))) 0 r ->
+  dd_res (length (root_acc k)) (TX k ((D ++ N' ++ [n]) ++ DD :: Y))
+         (length (TX k ((D ++ N' ++ [n]) ++ DD :: Y))) 0 r.
+Proof.
+  intros k D N' n Y r Hk HD HN Hr.
+  set (X := D ++ N' ++ [n]). set (T := TX k (X ++ DD :: Y)).
+  set (post := match Y with [] => [] | _ => SEP :: join_elems Y end).
+  assert (Hroot : root_acc k = [] \/ exists p', root_acc k = p' ++ [SEP]).
+  { destruct Hk as [-> | ->]; [left; reflexivity|right; exists []; reflexivity]. }
+  assert (EJ : join_elems (X ++ DD :: Y) = body X ++ DD ++ post).
+  { destruct Y as [|y Y'].
+    - unfold post. rewrite join_snoc, app_nil_r. reflexivity.
+    - rewrite join_app_body by discriminate. reflexivity. }
+  assert (ET : T = root_acc k ++ body X ++ DD ++ post) by (unfold T, TX; rewrite EJ; reflexivity).
+  pose proof (Forall_app_l := proj1 (Forall_app nm N' [n])).
+  assert (Hn : nm n) by (apply Forall_app in HN as [_ H]; inversion H; assumption).
+  assert (HN'n : allnm (N' ++ [n])) by exact HN.
+  destruct (nofire_dn (length T) (length (root_acc k)) D (N' ++ [n]) HD HN) as [NF TR].
+  rewrite track_names_last in TR by exact HN.
+  apply (skip_block X (root_acc k) (DD ++ post) T _ 0%nat r ET); auto.
+  - unfold X. apply Forall_app. split; [apply allDD_gf0|apply allnm_gf0]; assumption.
+  - intros nx _. unfold X at 2. rewrite TR.
+    (* position of the ".." field *)
+    destruct Hn as ((Hns & Hnz & Hnne) & _).
+    set (p' := root_acc k ++ body (D ++ N') ++ n).
+    assert (EP : root_acc k ++ body X = p' ++ [SEP]).
+    { unfold X, p'. rewrite (app_assoc D N' [n]), body_snoc. rewrite <- !app_assoc. reflexivity. }
+    assert (ET2 : T = (p' ++ [SEP]) ++ DD ++ post) by (rewrite ET, <- EP, <- app_assoc; reflexivity).
+    replace (length (root_acc k) + length (body X))%nat with (length (p' ++ [SEP])) by (rewrite <- EP; apply app_length).
+    rewrite ET2.
+    assert (EL : (length (root_acc k) + length (body D) + length (body N'))%nat = length (root_acc k ++ body (D ++ N'))).
+    { assert (EB : body (D ++ N') = body D ++ body N') by (unfold body; rewrite map_app, concat_app; reflexivity).
+      rewrite EB, !app_length. lia. }
+    rewrite EL.
+    assert (ET3 : (p' ++ [SEP]) ++ DD ++ post = (root_acc k ++ body (D ++ N')) ++ (n ++ [SEP] ++ DD ++ post)).
+    { unfold p'. rewrite <- !app_assoc. reflexivity. }
+    apply fire_dd.
+    + unfold post. destruct Y; [left; reflexivity|right; eexists; reflexivity].
+    + rewrite ET3. rewrite (app_length (root_acc k ++ body (D ++ N'))). rewrite (app_length n).
+      destruct n; [congruence|cbn [length]; lia].
+    + unfold p'. rewrite !app_length. destruct n; [congruence|cbn [length]; lia].
+    + rewrite ET3 at 1 2. rewrite firstn_exact.
+      assert (EF : (root_acc k ++ body (D ++ N')) ++ tl post =
+                   TX k ((D ++ N') ++ match Y with [] => [[]] | _ => Y end)).
+      { unfold TX, post. destruct Y as [|y Y'].
+        - rewrite join_snoc. cbn [tl]. rewrite <- app_assoc. reflexivity.
+        - rewrite join_app_body by discriminate. cbn [tl]. rewrite <- app_assoc. reflexivity. }
+      rewrite EF. exact Hr.
+Qed.
+
+Lemma dd_res_root : forall q L r, dd_res 1 (SEP :: q) L 0 r -> dd_res 0 (SEP :: q) L 0 r.
+Proof.
+  intros q L r H. apply dd_res_adv; [cbn; lia|apply fire_small; lia|].
+  unfold lst, nxt. cbn [nth Nat.leb andb]. change (nsd SEP) with false. cbv iota. exact H.
+Qed.
